@@ -6,6 +6,8 @@ import (
 	"google.golang.org/grpc/codes"
 	"google.golang.org/grpc/status"
 	"google.golang.org/protobuf/proto"
+
+	"github.com/smart-core-os/sc-golang/internal/simhook"
 )
 
 // CreateFn is called to generate a message based on the ID the message is going to have.
@@ -31,6 +33,7 @@ type SaveFn func(msg proto.Message)
 //
 // An error will be returned if the value returned by get changes during the change call.
 func GetAndUpdate(mu *sync.RWMutex, get GetFn, change ChangeFn, save SaveFn) (oldValue proto.Message, newValue proto.Message, err error) {
+	simhook.BeforeRLock("resource.gau.read", mu)
 	mu.RLock()
 	oldValue, err = get()
 	mu.RUnlock()
@@ -43,6 +46,7 @@ func GetAndUpdate(mu *sync.RWMutex, get GetFn, change ChangeFn, save SaveFn) (ol
 		return oldValue, newValue, err
 	}
 
+	simhook.BeforeLock("resource.gau.commit", mu)
 	mu.Lock()
 	defer mu.Unlock()
 	oldValueAgain, _ := get()
